@@ -124,12 +124,13 @@ def expectedClassEdges : List (String × String) := [
 
 theorem classEdges_expected : classEdges = expectedClassEdges := by rfl
 
-def expectedSameClassNesting : List (String × String) := [
-  ("tsspFile.mu", "tsspFile.LoadIdTimes -> tsspFile.IsOrder")
-]
+def expectedSameClassNesting : List (String × String) := []
 
-/-- the only nesting inside one lock class: a read lock of a file taken again by an accessor
-called under it (`tsspFile.LoadIdTimes` → `IsOrder`). -/
+/-- no lock class is acquired again while it is held. (Until fix d530920 there was one nesting:
+`tsspFile.LoadIdTimes` took the file's read lock and, under it, again through `IsOrder`. With a
+writer - `Rename` of a file that is replaced while the sequencer's loader holds it - waiting
+between the two read locks this is a deadlock: the lock-point loader rounds exhibited it. A
+re-appearing nesting breaks this obligation.) -/
 theorem sameClassNesting_expected : sameClassNesting = expectedSameClassNesting := by rfl
 
 def expectedHeldAt : List (String × String) := [
@@ -185,5 +186,53 @@ def expectedModelledSites : List String := ["shard.WriteRows RLock shard.mu", "s
 theorem modelledSites_expected : modelledSites = expectedModelledSites := by rfl
 
 theorem lockSiteCount_expected : lockSiteCount = 350 := by rfl
+
+/-! ### who reads a data file, and what keeps it open meanwhile -/
+
+def expectedGoFileReaders : List (String × String) := [
+  ("idTimesLoader.loadFromTSSPFiles: go func(file TSSPFile)(f)", "ref before go=true, unref deferred in the goroutine=true")
+]
+
+def expectedFileReadSites : List (String × String) := [
+  ("fileLoader.openPKIndexFile: f.ReadData", "none-visible"),
+  ("fileLoader.addTSSPFile: f.LoadComponents", "none-visible"),
+  ("fileLoader.serialLoadTsspFile: f.LoadComponents", "listlock"),
+  ("fileLoader.loadIntoMemory: f.LoadIntoMemory", "none-visible"),
+  ("fileLoadContext.update: f.MinMaxTime", "none-visible"),
+  ("idTimesLoader.loadFromTSSPFile: tblFile.LoadIdTimes", "none-visible"),
+  ("MmsTables.getFiles: f.ContainsByTime", "refs"),
+  ("compareFile: f1.(TSSPFile).MinMaxTime", "none-visible"),
+  ("compareFile: f2.(TSSPFile).MinMaxTime", "none-visible"),
+  ("compareFileByDescend: f1.(TSSPFile).MinMaxTime", "none-visible"),
+  ("compareFileByDescend: f2.(TSSPFile).MinMaxTime", "none-visible"),
+  ("MmsTables.matchOrderFiles: f.MinMaxTime", "listlock"),
+  ("getQueryTimeRange: readers.Orders[i].MinMaxTime", "none-visible"),
+  ("shard.scanWithSparseIndex: dataFile.ContainsByTime", "none-visible")
+]
+
+/-- every goroutine that is handed a data file gets it referenced: the spawning function calls
+`Ref` on that very file before the `go` statement and the goroutine gives the reference back in a
+defer (`idTimesLoader.loadFromTSSPFiles`, fix 8af6340 - without it the sequencer's reload reads
+files that a compaction or merge may close under it). This is the model's `loaderRef`. -/
+theorem go_file_readers_hold_a_reference :
+    goFileReaders.all (fun p => p.2 == "ref before go=true, unref deferred in the goroutine=true") = true := by
+  decide
+
+theorem goFileReaders_expected : goFileReaders = expectedGoFileReaders := by rfl
+
+/-- **file reads are Ref-bracketed.** The calls of reading accessors (`LoadIdTimes`, `ReadData`,
+`ReadChunkMetaData`, `MetaIndex(At)`, `ChunkMeta`, `ReadAt`, `Contains*`, `MinMaxTime`,
+`LoadComponents`, `LoadIntoMemory`) on a file that is not the method's own receiver, in the files
+that list, load, compact, merge and query data files, with the protection visible in the calling
+function. A site that appears, disappears or changes its protection breaks this obligation and
+has to be judged. Judgement of the `none-visible` sites as recorded here:
+`fileLoader.*` and `fileLoadContext.update` run while the shard is being opened (files not yet
+listed, nothing can replace them); `idTimesLoader.loadFromTSSPFile` is reached only through
+`loadFromTSSPFiles`, which references the file first (`go_file_readers_hold_a_reference`);
+`compareFile*` are sort comparators over files their caller holds; `getQueryTimeRange` and
+`shard.scanWithSparseIndex` read the files of a query's `MmsReaders`, referenced by
+`GetBothFilesRef` (the model's `takeView`). -/
+theorem file_reads_are_ref_bracketed_expected : fileReadSites = expectedFileReadSites := by rfl
+
 
 end OG.C04.Facts
